@@ -730,6 +730,8 @@ def emit_grammar(g, gi, cfgset_macro="VF_CFGS"):
     out.append("}")
     js = json.dumps(g.to_json(), separators=(",", ":"))
     alphabet = g.alphabet or grammar_alphabet(g)
+    if g.nslots() and not g.alphabet and alphabet == "abcx":
+        alphabet = "ab\n"  # slot shapes do not look at bytes, but the rules around them (eof / eolf inside minus, list_tail, ...) may
     ops_used = set(n.op for r in g.rules for n in r.walk())
     visited_ok = not (ops_used & {"until", "strict", "everything", "shebang"})
     sel_txt = ""
@@ -954,6 +956,14 @@ class Gen:
         for i in range(nr):
             if rules[i].op == "ref":
                 rules[i] = N("seq", [rules[i], self.atom()])
+            # analyze_traits< Name, until< Cond > > derives from analyze_traits< Name, Cond::rule_t >: a named rule whose body is a
+            # chain of single-argument until<> ending in a reference can make that derivation circular (does not compile:
+            # "incomplete type"), e.g. struct R : until< R > {}.  Not a run-time verdict, so outside the property: avoided.
+            n = rules[i]
+            while n.op == "until" and len(n.kids) == 1:
+                n = n.kids[0]
+            if n is not rules[i] and n.op == "ref":
+                rules[i] = N("seq", [rules[i]])
         return Grammar(rules)
 
     def grammar(self, tries=200):
